@@ -20,7 +20,7 @@ if TYPE_CHECKING:
 
 def _uniqify_labels(arr, labels: list[str]) -> np.ndarray:
     """Helper function to uniqify labels."""
-    unique_labels = list(set(labels))
+    unique_labels = sorted(set(labels))
     mapping = np.array([-1] + [unique_labels.index(label) for label in labels])
 
     palette = np.arange(-1, len(labels), dtype=int)
@@ -31,7 +31,7 @@ def _uniqify_labels(arr, labels: list[str]) -> np.ndarray:
 
 def _get_states(labels: list[str]) -> dict[int, str]:
     """Helper function to generate a list of states from the labels."""
-    unique_labels = list(set(labels))
+    unique_labels = sorted(set(labels))
 
     states = {}
 
